@@ -23,7 +23,7 @@ def c07(out, tier):
           "every well-formed UTF-8 value of <= 4 bytes"),
     ]
     names = ["style", "script", "xmp", "iframe", "noembed", "noframes", "plaintext", "noscript", "br", "div", "title", "p"]
-    quick_names = ["script", "noscript", "style", "plaintext", "br", "div"]
+    quick_names = ["script", "noscript", "div"]
     IO = ("outer serialisation == '<name>' + ChildrenOnly(Some(name)) serialisation + '</name>' == reference; "
           "text raw iff the parent is an HTML raw-text element")
     for n in names:
@@ -182,6 +182,40 @@ def tok_finish(out, TC, tok, results, exe, exe_rel, prop, keep_err, what, bounds
             if key in seen:
                 continue
             seen.add(key)
+            if v.get("label") == "xmlnorm":
+                cfg = TC.mk_cfg(v["base"])
+                chunks = TC.split(v["chars"], v["lens"]) if v.get("lens") else [v["chars"]]
+                nat = TC.native_obs(exe, cfg, chunks)
+                mid = v["chars"][v["nprefix"]:len(v["chars"]) - v["nsuffix"]]
+                exp, i = list(v["resolved"]), 0
+                while i < len(mid):
+                    c_ = mid[i]
+                    if c_ == 13:
+                        exp.append(10)
+                        if i + 1 < len(mid) and mid[i + 1] == 10:
+                            i += 1
+                    else:
+                        exp.append(0xFFFD if c_ == 0 else c_)
+                    i += 1
+                exp += [ord(x) for x in v.get("resolved_suffix", "")]
+                if v.get("where") == "attr":
+                    got = None
+                    for l in nat:
+                        mm = __import__("re").match(r"XTag \w+ \[[^\]]*\] \[[0-9a-f,:]*=([0-9a-f,]*)", l)
+                        if mm:
+                            got = [int(x, 16) for x in mm.group(1).split(",") if x]
+                else:
+                    got = []
+                    for l in nat:
+                        if l.startswith("Chars "):
+                            got += [int(x, 16) for x in l[6:].rpartition(" @")[0].split(",") if x]
+                if got != exp:
+                    out.violation("XML %s is not the normalised input (CR/CRLF -> LF, NUL -> U+FFFD, nothing else) [input %r, chunks %s]: got %r, expected %r" % (
+                        "attribute value" if v.get("where") == "attr" else "character data", chs(v["chars"]), v.get("lens"), chs(got or []), chs(exp)),
+                        {"engine": "mirsym", "kind": "xmlnorm", "case": tok.case_text(cfg, chunks), "native": nat, "expected": exp}, key)
+                else:
+                    out.inconclusive.append("xmlnorm counter-example %r does not reproduce natively" % (v["chars"],))
+                continue
             if v.get("variant") is None:
                 # oracle violation on a single configuration (line numbers): replay = show the native tokens
                 cfg = TC.mk_cfg(v["base"])
@@ -326,8 +360,20 @@ def c04(out, tier):
     units = tok_units(TC, tok, prog, k, classes, vs, bases, kind="C04", compare=False, line_oracle=False)
     res = TC.run_units(units, mir, ent)
     bounds = "HTML tokenizer: all %d start states x %d symbolic characters x {whole, one character per feed, SIMD off} x 6 sink answers x exact_errors, plus (foreign content, no last start tag); then end()" % (len(tok.all_states(prog)), k)
-    npaths, obl = tok_finish(out, TC, tok, res, exe, exe_rel, "C04", True, "no panic / unreachable / failed assert / overflow / RefCell double borrow on any path; feed returns Done only with the queue empty; exactly one EOF, last; bounded step count (livelock guard)", bounds, compare=False)
-    out.assumptions += ["claimed for the HTML tokenizer only; tree builders, XML, stack depth and memory exhaustion are outside this check (see level_note)"]
+    # the XML tokenizer, same obligations
+    from mirsym import build as _b, models as _MD
+    from mirsym.program import Program as _P
+    xmir, xent, _ = _b.dump_mir("xml5ever")
+    xprog = _P(xmir, C.REPO, "xml5ever", _MD.M)
+    xunits = []
+    for st in tok.all_xml_states(xprog):
+        for e in (False, True):
+            xunits.append({"kind": "C04x", "state": st, "k": k, "classes": [1] * k, "base": dict(XBASE, exact_errors=e),
+                           "variants": [("chunks%s" % ([1] * k), {}, [1] * k)], "compare": False, "line_oracle": False})
+    xres = TC.run_units(xunits, xmir, xent, crate="xml5ever")
+    bounds += "; XML tokenizer: all %d start states x %d symbolic characters x {whole, one character per feed} x exact_errors" % (len(tok.all_xml_states(xprog)), k)
+    npaths, obl = tok_finish(out, TC, tok, res + xres, exe, exe_rel, "C04", True, "no panic / unreachable / failed assert / overflow / RefCell double borrow on any path; feed returns Done only with the queue empty; exactly one EOF, last; bounded step count (livelock guard)", bounds, compare=False)
+    out.assumptions += ["claimed for the HTML and XML tokenizers (incl. character-reference sub-tokenizers); tree builders, drivers, RcDom, stack depth and memory exhaustion are outside this check (see level_note)"]
     return finish_mc(out, npaths, npaths, len(tok.all_states(prog)), [{"bounds": bounds}])
 
 
@@ -601,11 +647,24 @@ def c15(out, tier):
                       "keep_errors": False, "forbid_first": 0xFEFF})
         units.append({"kind": "C15bom1", "state": st, "k": k, "classes": cls3[0], "base": XBASE,
                       "variants": [("discard_bom-drops-only-first", {"discard_bom": False}, None, {"skip": 1})], "keep_errors": False, "force": [(0, 0xFEFF)]})
+    # absolute oracle: character data / attribute values are exactly the normalised input
+    nunits = []
+    kn = 2 if tier == "quick" else 3
+    for pre, resv in (("", []), ("&amp;", [38]), ("&a", [38, 97]), ("&#65;", [65]), ("x", [120]), ("&lt", [60]), ("&#x41", [65])):
+        nb = dict(XBASE, state="Data", discard_bom=False)
+        ex = "<&" + (";" if pre in ("&a", "&lt", "&#x41") else "") + ("0123456789abcdefABCDEF" if pre == "&#x41" else "")
+        n_ = len(pre) + kn
+        nunits.append({"prefix": pre, "resolved": resv, "k": kn, "classes": [1] * kn, "base": nb, "exclude": ex, "chunkings": [[1] * n_, [n_ - 1, 1]]})
+        for q in ('"', "'"):
+            nunits.append({"prefix": "<a b=" + q + pre, "resolved": resv, "k": kn, "classes": [1] * kn, "base": nb, "exclude": ex + q, "suffix": q + ">",
+                           "where": "attr", "chunkings": [[1] * (n_ + 9)]})
+    nres = TC.run_units_fn(TC.unit_xmlnorm, nunits, mir, ent, crate="xml5ever")
     rnd = __import__("random").Random(C.seed())
     rnd.shuffle(units)
-    res = TC.run_units(units, mir, ent, crate="xml5ever")
+    res = TC.run_units(units, mir, ent, crate="xml5ever") + nres
     bounds = ("xml5ever tokenizer: all %d start states x %d symbolic characters (class vectors %s): every split into chunks (and an empty first chunk), exact_errors on/off (whole and one character per feed), "
-              "discard_bom on/off; plus character-reference prefixes followed by 2 symbolic characters") % (len(states), k, classes)
+              "discard_bom on/off; plus character-reference prefixes followed by 2 symbolic characters; absolute normalisation oracle: text and quoted attribute values made of "
+              "{nothing, '&amp;', '&a', '&#65;', 'x', '&lt', '&#x41'} + %d symbolic non-markup characters equal resolved prefix + (CR/CRLF->LF, NUL->U+FFFD) of the characters, whole / one character per feed / exact_errors") % (len(states), k, classes, kn)
     npaths, obl = tok_finish(out, TC, tok, res, exe, exe_rel, "C15", False, "XML token stream: variant vs base (tokens minus ParseError)", bounds)
     out.assumptions += ["tree equality follows from token-stream equality: XmlTreeBuilder::process_token is a function of the token sequence",
                         "outside the bound: longer inputs"]
